@@ -30,6 +30,7 @@ Inc(sub) == [k |-> "include", n |-> 0, sub |-> sub]
 
 Phys(el) == CASE el.k \in {"plain", "lcomment", "define", "include", "undef", "undefmissing"} -> 1
               [] el.k = "else" -> el.n + 4
+              [] el.k = "inactivestr" -> 4
               [] el.k = "bcomment" -> el.n
               [] el.k \in {"definecont", "textcont"} -> el.n + 1
               [] el.k \in {"inactive", "active"} -> el.n + 2
@@ -74,7 +75,10 @@ LastMarker(src) == AtFault(src, {}).mark
 FaultOffset(kind) == CASE kind = "parse" -> 10      \* vd__q = 1 ) ;      the stray ")"
                        [] kind = "runtime" -> 10    \* vd__q = 1 + "a";   the "+"
                        [] OTHER -> 0
-FaultCol(src) == src.fault.pad + FaultOffset(src.fault.kind)
+\* pre = 1: a statement holding a string with an escaped quote stands in front of the fault on the same line
+PreText == "vd__s = \"p\"\"q\"; "
+PreLen == 16
+FaultCol(src) == src.fault.pad + (IF src.fault.pre = 1 THEN PreLen ELSE 0) + FaultOffset(src.fault.kind)
 
 ---------------------------------------------------------------------------
 (* THE FORMULAS                                                            *)
@@ -95,7 +99,7 @@ ExplainedByCodeModel(src, pos) == pos.L = Believed(src, {"OneNewlinePerDirective
 Pad(n) == IF n = 0 THEN "" ELSE IF n = 1 THEN " " ELSE IF n = 2 THEN "  " ELSE IF n = 3 THEN "   " ELSE "    "
 RECURSIVE Rep(_, _)
 Rep(s, n) == IF n <= 0 THEN "" ELSE s \o Rep(s, n - 1)
-FaultText(f) == Pad(f.pad) \o (CASE f.kind = "parse" -> "vd__q = 1 ) ;"
+FaultText(f) == Pad(f.pad) \o (IF f.pre = 1 THEN PreText ELSE "") \o (CASE f.kind = "parse" -> "vd__q = 1 ) ;"
                                  [] f.kind = "runtime" -> "vd__q = 1 + \"a\";"
                                  [] OTHER -> "vd__m = [__LINE__, __FILE__];")
 \* text of an element, every physical line terminated by nl
@@ -108,6 +112,7 @@ ElText(el, nl, incname) ==
       [] el.k = "textcont" -> "vd__t = 1 \\" \o nl \o Rep(" + 2 \\" \o nl, el.n - 1) \o " + 3;" \o nl
       [] el.k = "inactive" -> "#ifdef VD_UNDEFINED" \o nl \o Rep("vd__dead = 1 ) ;" \o nl, el.n) \o "#endif" \o nl
       [] el.k = "active" -> "#ifndef VD_UNDEFINED" \o nl \o Rep("vd__p = 1;" \o nl, el.n) \o "#endif" \o nl
+      [] el.k = "inactivestr" -> "#ifdef VD_UNDEFINED" \o nl \o "vd__dead = \"l1" \o nl \o "l2\";" \o nl \o "#endif" \o nl   \* a string spanning two skipped lines
       [] el.k = "undef" -> "#undef VD_A" \o nl                   \* defined or not, depending on what precedes
       [] el.k = "undefmissing" -> "#undef VD_NEVER" \o nl        \* never defined: a warning, and still one line
       [] el.k = "else" -> "#ifdef VD_UNDEFINED" \o nl \o Rep("vd__dead = 1 ) ;" \o nl, el.n) \o "#else" \o nl \o "vd__p = 1;" \o nl \o "#endif" \o nl
